@@ -254,7 +254,7 @@ PROPS["C13"] = dict(
     modules=["Morlock.Props.C13", "Morlock.Props.C13Engines", "Morlock.Props.C13Window", "Morlock.Props.C09"],
     streams=["c13"],
     timeout=dict(quick=900, thorough=6000),
-    level_text="Lean theorems (every Game, move-determined exploration, depth and window with K+d <= 127 - the int8 mate-distance limit made explicit): with no table and no halt the "
+    level_text="Lean theorems (every Game, exploration (node-dependent allowed: C13Engines gives the TUROCHAMP and BERNSTEIN instances), depth and window with K+d <= 127 - the int8 mate-distance limit made explicit): with no table and no halt the "
                "transcribed alpha-beta returns r with Clip(alpha, beta, V, r) where V is plain negamax over the same explored moves and leaf (alphabeta_clip), including "
                "mate-score bounds and the degenerate child windows at the ends of the order (alphabeta_any_window); the quiescence search satisfies the same against its own "
                "full-window value (quiescence_clip), never rates a NOT-DRAWN position with a legal move below its static evaluation (standpat; a drawn position is rated 0) and rates mate/stalemate exactly "
@@ -266,7 +266,7 @@ PROPS["C13"] = dict(
                "exploration on every board of the chess game fuel 64 always suffices (each capture removes a man). EvalOk is proved for the chess game (chess_evalOk) and every theorem is instantiated on it.",
     technique="Lean 4 proof: loop invariant of the fail-hard move loop in rank space, graded validity of mate distances, permutation invariance of the reference maximum; differential windows",
     rule="positions with histories (corpus, mate endgames, synthetic) x depth 0-4 x 4 configurations x 5 windows (bounds -inf, M+-k, heuristic, +inf); non-trivial = distinct script",
-    partial=["board-dependent explorations (TUROCHAMP considerable moves, BERNSTEIN plausible table) not covered by the theorems"],
+    partial=["EvalOk of the engines' own float evaluations and fuel sufficiency for TUROCHAMP's quiescence are not instantiated (C13Engines holds for any evaluation with EvalOk)"],
     modelled=SEARCH_MODELLED,
 )
 
@@ -274,12 +274,14 @@ PROPS["C03"] = dict(
     modules=["Morlock.Props.C03", "Morlock.Props.C13", "Morlock.Props.C13Engines", "Morlock.Props.C09"],
     streams=["c03"],
     timeout=dict(quick=900, thorough=6000),
-    level_text="Lean theorems (every Game, every MOVE-DETERMINED exploration (priority and filter are functions of the move: full, no-under-promotion, captures-only), every leaf "
+    level_text="Lean theorems (every Game, every exploration - priority and filter may depend on the NODE (P -> Explore), as Go's Exploration gets the board -, every leaf "
                "evaluation, every depth with leafGrade + d <= 127): the full-window search returns exactly the negamax value V (exact, search_exact), the PV is a path of legal explored "
                "moves no longer than the depth, EVERY PV move attains the value of the position it is played in (pv, pv_principal), and the PV is NON-EMPTY whenever an explored legal move exists and the value is not 'lost' "
                "(pv_nonempty, search_pv_nonempty: no table hypotheses); EvalOk holds for the chess game and every theorem is instantiated on materialGame. V is negamax over the model board's own "
                "push / draw / check (their chess meaning is C01, C02, C05; the composition into one statement against Spec.Search is not carried out: Spec.Search is the stream's oracle). "
-               "The board-dependent explorations of TUROCHAMP (considerable moves) and BERNSTEIN (plausible table) are outside these theorems: modelled in C20, searched only by the streams. "
+               "C13Engines instantiates the two board-dependent explorations of the bundled engines on the chess game: TUROCHAMP's considerable moves (the predicate sees the board AFTER the move; "
+               "turochampExplore_moves ties it to the considerable list the turochamp stream compares with Go) and BERNSTEIN's plausible-move table (bernsteinExplore_eq): bernstein_exact, "
+               "turochamp_exact, bernstein_clip, turochamp_clip, turochamp_quiescence_clip - for every evaluation satisfying EvalOk. "
                "Board hand-back is NOT a theorem (the search model is pure: it uses the child value and keeps the parent): C08.pushes_pops says balanced push/pop pairs restore the board, "
                "and that the Go loops are balanced on every path (incl. halted) is decided by the implementation-side comparison of every getter before/after each search. "
                "Tie: full-window searches on generated positions WITH their game histories (repetition shuffles, clocks near 100, draws arising exactly at the horizon), "
@@ -292,7 +294,8 @@ PROPS["C03"] = dict(
          "deep oracle d=4-6; non-trivial = distinct script; mate scores counted",
     partial=["exhaustive reference quiescence only affordable with <= 12 men (busy positions: impl vs model only)",
              "board hand-back decided by the stream (getter comparison; at a root without legal moves the search adjudicates mate/stalemate on the caller's board: accepted, documented in DESIGN 7), not by a theorem",
-             "board-dependent explorations (TUROCHAMP, BERNSTEIN) not covered by the search theorems"],
+             "for the engines' own float evaluations EvalOk is not instantiated (the engine theorems hold for any evaluation with EvalOk, e.g. material); no fuel-sufficiency result for TUROCHAMP's quiescence; "
+             "no harness op runs Go's AlphaBeta with the engine explorations against the model (their components are compared)"],
     modelled=SEARCH_MODELLED,
 )
 
@@ -300,7 +303,7 @@ PROPS["C11"] = dict(
     modules=["Morlock.Props.C11", "Morlock.Props.C13"],
     streams=["c11", "c11deep"],
     timeout=dict(quick=900, thorough=6000),
-    level_text="Lean theorems (every Game, move-determined exploration, leaf evaluation, table size and min-depth filter). The hypotheses of the property are explicit and RELATIVE TO THE REGION "
+    level_text="Lean theorems (every Game, exploration (node-dependent allowed), leaf evaluation, table size and min-depth filter). The hypotheses of the property are explicit and RELATIVE TO THE REGION "
                "THE SEARCHES VISIT (Tree g ex root d = what is reachable from the root by at most d explored pushes; Trees = the union for a sequence of searches): HashOKOn = two positions of the "
                "region with equal hash have equal reference values at every remaining depth ('barring collisions' AND 'position-determined': it fails if the same position occurs in the region with "
                "two histories that differ in drawn descendants), RootFreeOn / NoDrawOn = no history draw inside the region. (The earlier global forms quantified over every value of the state type "
@@ -314,7 +317,7 @@ PROPS["C11"] = dict(
     technique="Lean 4 proof (table invariant threaded through the alpha-beta node contract; list induction over search sequences) + differential search sequences",
     rule="no-repeat histories x iterative deepening + repeat + 2 successive game positions + take-back sequences x 5 table sizes x 2 seeds; deep tt-sequence oracle (d=4-6, two PV moves, shallower searches); non-trivial = distinct script",
     partial=["HashOKOn is a hypothesis (it is the property's 'position-determined evaluations, no repetition or fifty-move draw inside the tree, barring collisions'): decided per tree, not derived from the chess model in general",
-             "board-dependent explorations (TUROCHAMP, BERNSTEIN) not covered by the theorems"],
+             ],
     modelled=SEARCH_MODELLED,
 )
 
